@@ -35,10 +35,11 @@ UNIT_TIMEOUT_S = 1500
 A = {"type": "record", "name": "A", "fields": [{"name": "x", "type": "int"}]}
 B = {"type": "record", "name": "B", "fields": [{"name": "x", "type": "int"}, {"name": "y", "type": "string", "default": "dy"}]}
 C = {"type": "record", "name": "C", "fields": [{"name": "y", "type": "string", "default": "dy"}, {"name": "z", "type": "int", "default": 0}]}
+ZA = {"type": "record", "name": "ZA", "fields": [{"name": "x", "type": "int"}]}  # its name ends with "A": a hint must match names exactly
 A2 = {"type": "record", "name": "A2", "fields": [{"name": "x", "type": "int"}]}  # same shape as A: only a hint tells them apart
 POOL = [
     "null", "boolean", "int", "long", "float", "double", "string", "bytes", family.E(), family.E2(), family.F(), {"type": "array", "items": "int"},
-    {"type": "map", "values": "int"}, A, B, C, {"type": "int", "logicalType": "date"}, {"type": "double", "unit": "metres"}, A2,
+    {"type": "map", "values": "int"}, A, B, C, {"type": "int", "logicalType": "date"}, {"type": "double", "unit": "metres"}, A2, ZA,
 ]
 
 
@@ -67,7 +68,7 @@ def unions(tier):
                 out.append(copy.deepcopy(bs))
     else:
         # quick: the triples made of records / float-double / named mixes only
-        core = [POOL[i] for i in (0, 4, 5, 6, 8, 9, 13, 14, 15, 17, 18)]
+        core = [POOL[i] for i in (0, 4, 5, 6, 8, 9, 13, 14, 15, 17, 18, 19)]
         for tr in itertools.permutations(range(len(core)), 3):
             bs = [core[i] for i in tr]
             if legal(bs) and sum(1 for b in bs if isinstance(b, dict) and b.get("type") == "record") >= 2:
@@ -86,6 +87,11 @@ def contexts(u):
     out.append(("in-branch", ["null", {"type": "record", "name": "Holder", "namespace": "deep", "fields": [{"name": "u", "type": copy.deepcopy(u)}]}]))
     # the same nesting without any namespace ('-type' hints must still be matched by the record's own name)
     out.append(("in-branch", ["null", {"type": "record", "name": "Holder2", "fields": [{"name": "u", "type": copy.deepcopy(u)}]}]))
+    # two holder records in an outer union; only the second one's inner union has the hinted names
+    out.append(("in-branch", ["null",
+                              {"type": "record", "name": "HolderP", "fields": [{"name": "u", "type": ["null", {"type": "record", "name": "P", "fields": [{"name": "x", "type": "int"}]},
+                                                                                                    {"type": "enum", "name": "PE", "symbols": ["A", "B", "C", "Z"]}, "string", "long", "double", "bytes"]}]},
+                              {"type": "record", "name": "HolderU", "fields": [{"name": "u", "type": copy.deepcopy(u)}]}]))
     # a record holding the union, used a second time by reference
     out.append(("second-use", {"type": "record", "name": "W2", "fields": [
         {"name": "first", "type": {"type": "record", "name": "Holder3", "fields": [{"name": "u", "type": copy.deepcopy(u)}]}},
@@ -131,6 +137,7 @@ def ambiguous(u):
             d = {f["name"]: base[f["type"]] for f in r["fields"]}
             out.append(dict(d, **{"-type": r["name"]}))
         out.append({"x": 1, "-type": "Unknown"})
+    out += [("A", {"x": 1}), ("ZA", {"x": 1}), ("Nope", {"x": 1}), ("E", "B"), ("E2", "B"), ("Nope", "B")]
     out += [5, 1.5, 1, b"ab", "A", "B", "Z", None, True, [1], {"k": 1}, {}, datetime.date(2020, 2, 29), ("Unknown", 1), ("int", 7), ("double", 2.5), ("float", 2.5)]
     return out
 
@@ -319,9 +326,9 @@ def run_unit(i, tier):
             # hints must use full names in this context
             fixed = []
             for d in udata:
-                if isinstance(d, tuple) and len(d) == 2 and d[0] in ("A", "B", "C", "E", "E2", "F"):
+                if isinstance(d, tuple) and len(d) == 2 and d[0] in ("A", "B", "C", "E", "E2", "F", "A2", "ZA"):
                     fixed.append(("nsw." + d[0], d[1]))
-                if isinstance(d, dict) and d.get("-type") in ("A", "B", "C"):
+                if isinstance(d, dict) and d.get("-type") in ("A", "B", "C", "A2", "ZA"):
                     fixed.append(dict(d, **{"-type": "nsw." + d["-type"]}))
                 fixed.append(d)
             data = [dict(base, u=d) for d in fixed]
